@@ -1134,7 +1134,7 @@ pub static C22: PropDef = PropDef {
     id: "C22",
     level: "model_checking",
     engine: "sweep",
-    rule: "every instruction sequence of length <= L over the 28-instruction frame/classical/control-flow menu x 3 terminators, built on a fixed 4-frame header; each is scheduled by the real ScheduledProgram and every block's graph is checked (edges forward, acyclic, rooted, reaches end). state = a schedulable program; non-trivial = schedulable program with at least one instruction-to-instruction edge (distinct by sequence)",
+    rule: "every instruction sequence of length <= 3 (thorough 5) over the 28-instruction frame/classical/control-flow menu and over the 21-instruction memory menu x 3 terminators, built on a fixed 4-frame header; each is scheduled by the real ScheduledProgram and every block's graph is checked (edges forward, acyclic, rooted, reaches end). state = a schedulable program; non-trivial = schedulable program with at least one instruction-to-instruction edge (distinct by sequence)",
     assumptions: ASSUME,
     run: |ctx| {
         let l = ctx.tier.pick(3, 5);
@@ -1153,7 +1153,7 @@ pub static C23: PropDef = PropDef {
     id: "C23",
     level: "model_checking",
     engine: "queue",
-    rule: "(A) every sequence of length <= L over a 21-instruction memory menu (regions a,b: every access shape, two captures into one region on disjoint non-blocking frames) and over the 28-instruction general menu, x 3 terminators, scheduled by the real code; (B) every access sequence (Read/Write/Capture) of length <= 8 (11 thorough) on one real DependencyQueue and every sequence of <= 4 (5) multi-queue actions on two queues, through the hook; (C) a TLA+ model of the queue (tla/DependencyQueue.tla) checked by TLC for TypeOK, SequentiallyConsistent, Justified, Rooted, PendingExact over all histories of length <= 6 (8), with EVERY state of TLC's dumped graph replayed on the real queue (conformance). non-trivial = program with >= 1 conflicting memory pair / queue sequence of length >= 2",
+    rule: "(A) every sequence of length <= 3 (thorough 5) over a 21-instruction memory menu (regions a,b: every access shape incl. comparisons / STORE with immediates and CALL with a mutable and an immutable parameter, two captures into one region on disjoint non-blocking frames) and of length <= 2 (4) over the 28-instruction general menu, x 3 terminators, scheduled by the real code; (B) every access sequence (Read/Write/Capture) of length <= 8 (11 thorough) on one real DependencyQueue and every sequence of <= 4 (5) multi-queue actions on two queues, through the hook; (C) a TLA+ model of the queue (tla/DependencyQueue.tla) checked by TLC for TypeOK, SequentiallyConsistent, Justified, Rooted, PendingExact over all histories of length <= 6 (8), with EVERY state of TLC's dumped graph replayed on the real queue (conformance). non-trivial = program with >= 1 conflicting memory pair / queue sequence of length >= 2",
     assumptions: ASSUME,
     run: |ctx| {
         ctx.bound("menu_memory", json!(MENU_M));
@@ -1172,7 +1172,7 @@ pub static C24: PropDef = PropDef {
     id: "C24",
     level: "model_checking",
     engine: "queue",
-    rule: "(A) every sequence of length <= L over the 28-instruction general menu x 3 terminators on a 4-frame header (overlapping qubit sets; blocking and non-blocking pulses, captures, delays, fences, phase/frequency updates, reset), scheduled by the real code and compared with the reference frame rules; (B) every Blocking/Using sequence of length <= 8 (11) on one real frame DependencyQueue (implicit BlockStart writer) and <= 4 (5) actions on two queues, through the hook; (C) the TLA+ queue model with the initial BlockStart writer checked by TLC over all histories of length <= 8 (11), every model state replayed on the real frame queue (conformance). non-trivial = program with >= 1 conflicting frame pair",
+    rule: "(A) every sequence of length <= 3 (thorough 5) over the 28-instruction general menu x 3 terminators on a 4-frame header (overlapping qubit sets; blocking and non-blocking pulses, captures, delays, fences, phase/frequency updates, reset), scheduled by the real code and compared with the reference frame rules; (B) every Blocking/Using sequence of length <= 8 (11) on one real frame DependencyQueue (implicit BlockStart writer) and <= 4 (5) actions on two queues, through the hook; (C) the TLA+ queue model with the initial BlockStart writer checked by TLC over all histories of length <= 8 (11), every model state replayed on the real frame queue (conformance). non-trivial = program with >= 1 conflicting frame pair",
     assumptions: ASSUME,
     run: |ctx| {
         ctx.bound("menu", json!(MENU_F));
@@ -1189,7 +1189,7 @@ pub static C25: PropDef = PropDef {
     id: "C25",
     level: "model_checking",
     engine: "sweep",
-    rule: "(A) every sequence of length <= L over a 17-instruction timed menu (known durations: template waveforms, erf_square with pads, DEFWAVEFORM samples/rate, DELAY, RAW-CAPTURE, zero-length updates) scheduled in seconds by the real code and compared with the reference ASAP schedule; (B) programs = 2 calibrations (7 x 8 x 2 bodies) x 2-3 invocations, block schedule vs schedule of the expanded program through the source map. non-trivial = program whose schedule was computed",
+    rule: "(A) every sequence of length <= 4 (thorough 6) over a 17-instruction timed menu (known durations: template waveforms, erf_square with pads, DEFWAVEFORM samples/rate on a frame with its own SAMPLE-RATE, DELAY, RAW-CAPTURE, zero-length updates) and of length <= 2 (3) over the 28-instruction general menu, scheduled in seconds by the real code and compared with the reference ASAP schedule: every timed instruction exactly once, documented duration, start = latest end of its timed predecessors, no overlap between instructions where one uses a frame the other uses or blocks, duration = latest end; (B) programs = 2 calibrations (7 x 8 x 2 bodies) x 2-3 invocations, block schedule vs schedule of the expanded program through the source map. non-trivial = program whose schedule was computed",
     assumptions: ASSUME,
     run: |ctx| {
         ctx.bound("menu_timed", json!(MENU_T));
